@@ -93,4 +93,16 @@ def dfltTy (sh : Shape) : Option Ty :=
 /-- the requested factory types `func() Plugin` and `func() (Plugin, error)` are factory types -/
 def formTy (numOut : Nat) : Ty := .func .nil (outsT plugT (numOut == 2))
 
+/-! ### requested forms (round 6): which types `NewFactory` / `LookupFactory` / `FactoryPluginType` take as a factory type -/
+
+/-- declaratively: `func() (X [, error])` with `X` an interface type -/
+def requestedOk (t : Ty) : Bool :=
+  match t with
+  | .func .nil (.cons x .nil) => x.kind == .iface
+  | .func .nil (.cons x (.cons e .nil)) => x.kind == .iface && e == Ty.error
+  | _ => false
+
+/-- the plugin interface a requested factory type asks for -/
+def requestedPlugin (t : Ty) : Ty := t.out 0
+
 end Pandora.Model.C18Reg
